@@ -51,7 +51,7 @@ def extract_bis():
         (r"if constexpr \(std::is_convertible_v<Rv, double> && std::is_convertible_v<T, double>\) \{", "{", 1),
         (r"alpha = \(static_cast<double>\(t\) - static_cast<double>\(\*left\)\) / static_cast<double>\(\*\(rght - 1\) - \*left\);",
          "alpha = stub_div(stub_sub(t, *left), stub_sub(*(rght - 1), *left));", 1),
-        (r"const auto dist = static_cast<double>\(std::distance\(left, rght - 1\)\);", "const double dist = (double)((rght - 1) - left);", 1),
+        (r"const auto dist = static_cast<double>\(std::distance\(left, rght - 1\)\);", "const intptr_t dist = (rght - 1) - left;", 1),
         (r"pivot           = std::ranges::next\(left, static_cast<std::intptr_t>\(alpha \* dist\), rght - 2\);",
          "pivot = ranges_next(left, stub_trunc_mul(alpha, dist), rght - 2);", 1),
         (r"  while \(left \+ 1 < rght\) \{", "  while (left + 1 < rght)\n  LOOP_CONTRACT\n  {", 1),
